@@ -196,9 +196,74 @@ theorem formulaToParts_spec (s : List Char) (pts : Parts) (h : formulaToParts pr
             subst h
             exact ⟨dp, T, hs _ (by simp [chgText]), hp2, ht2, Or.inl rfl⟩
 
-/-- an accepted charge token is a sign followed by ASCII digits only -/
+/-- characters of an accepted charge number: ASCII digits, `_`, ASCII whitespace (what `int()` tolerates) -/
+def IntC (c : Char) : Prop := c.isDigit = true ∨ c = '_' ∨ isPySpace c = true
+
+theorem dropSpaces_spec (s : List Char) : ∃ w, s = w ++ dropSpaces s ∧ ∀ c ∈ w, isPySpace c = true := by
+  induction s with
+  | nil => exact ⟨[], rfl, by simp⟩
+  | cons c r ih =>
+    by_cases hc : isPySpace c = true
+    · obtain ⟨w, hw, hall⟩ := ih
+      refine ⟨c :: w, by simp [dropSpaces, hc, ← hw], ?_⟩
+      intro d hd; rcases List.mem_cons.mp hd with e | e
+      · subst e; exact hc
+      · exact hall d e
+    · exact ⟨[], by simp [dropSpaces, hc], by simp⟩
+
+theorem stripPy_spec (s : List Char) :
+    ∃ w1 w2, s = w1 ++ (stripPy s ++ w2) ∧ (∀ c ∈ w1, isPySpace c = true) ∧ (∀ c ∈ w2, isPySpace c = true) := by
+  obtain ⟨w1, h1, a1⟩ := dropSpaces_spec s
+  obtain ⟨w2, h2, a2⟩ := dropSpaces_spec (dropSpaces s).reverse
+  refine ⟨w1, w2.reverse, ?_, a1, fun c hc => a2 c (by simpa using hc)⟩
+  have : dropSpaces s = (dropSpaces (dropSpaces s).reverse).reverse ++ w2.reverse := by
+    have := congrArg List.reverse h2
+    simpa using this
+  unfold stripPy
+  rw [← this]; exact h1
+
+theorem intDigits_chars : ∀ (fuel : Nat) (t ds : List Char), intDigits fuel t = some ds →
+    ∀ c ∈ t, c.isDigit = true ∨ c = '_' := by
+  intro fuel
+  induction fuel with
+  | zero => intro t ds h; simp [intDigits] at h
+  | succ f ih =>
+    intro t ds h c hc
+    obtain ⟨h1, hd1⟩ := takeDigits_spec t
+    simp only [intDigits] at h
+    split at h
+    · simp at h
+    · rw [h1] at hc
+      rcases List.mem_append.mp hc with e | e
+      · exact Or.inl (hd1 c e)
+      · split at h
+        · rename_i heq; rw [heq] at e; simp at e
+        · rename_i r' heq
+          rw [heq] at e
+          rcases List.mem_cons.mp e with e' | e'
+          · exact Or.inr e'
+          · cases hr : intDigits f r' with
+            | none => rw [hr] at h; simp at h
+            | some ds' => exact ih r' ds' hr c e'
+        · simp at h
+
+theorem pyInt_chars (s : List Char) (n : Nat) (h : pyInt s = some n) : ∀ c ∈ s, IntC c := by
+  simp only [pyInt, Option.map_eq_some_iff] at h
+  obtain ⟨ds, hds, _⟩ := h
+  obtain ⟨w1, w2, hs, a1, a2⟩ := stripPy_spec s
+  intro c hc
+  rw [hs] at hc
+  rcases List.mem_append.mp hc with e | e
+  · exact Or.inr (Or.inr (a1 c e))
+  · rcases List.mem_append.mp e with e | e
+    · rcases intDigits_chars _ _ _ hds c e with d | d
+      · exact Or.inl d
+      · exact Or.inr (Or.inl d)
+    · exact Or.inr (Or.inr (a2 c e))
+
+/-- an accepted charge token is a sign followed by what `int()` tolerates: ASCII digits, `_`, ASCII whitespace -/
 theorem chargeStep_ok (t a : Char) (sg : Int) (s : List Char) (q : Int) (h : chargeStep t a sg s = some (.ok q)) :
-    ∃ ds, s = t :: ds ∧ ∀ c ∈ ds, c.isDigit = true := by
+    ∃ ds, s = t :: ds ∧ ∀ c ∈ ds, IntC c := by
   simp only [chargeStep] at h
   split at h
   · rename_i hc
@@ -220,22 +285,19 @@ theorem chargeStep_ok (t a : Char) (sg : Int) (s : List Char) (q : Int) (h : cha
               cases hpi : pyInt after with
               | none => rw [hpi] at h; simp at h
               | some n =>
-                have hd : isDigits after = true := by
-                  simp only [pyInt] at hpi
-                  split at hpi
-                  · assumption
-                  · simp at hpi
                 have hb : before = [] := by
                   cases before with
                   | nil => rfl
                   | cons x xs => exact absurd ⟨by simp, hal⟩ hnb
                 subst hb
-                exact ⟨after, by simpa using hspec, ((isDigits_iff after).mp hd).2⟩
+                exact ⟨after, by simpa using hspec, pyInt_chars after n hpi⟩
             · simp at h
   · simp at h
 
-theorem getCharge_ok_chars (s : List Char) (q : Int) (h : getCharge s = .ok q) :
-    ∀ c ∈ s, c = '+' ∨ c = '-' ∨ c.isDigit = true := by
+/-- characters of an accepted charge token -/
+def ChgC (c : Char) : Prop := c = '+' ∨ c = '-' ∨ IntC c
+
+theorem getCharge_ok_chars (s : List Char) (q : Int) (h : getCharge s = .ok q) : ∀ c ∈ s, ChgC c := by
   simp only [getCharge] at h
   split at h
   · rename_i e; subst e; intro c hc; simp at hc; exact Or.inl hc
@@ -439,7 +501,7 @@ theorem accepted_shape (s : List Char) (c : Comp) (h : formulaToCompositionL s =
     ∃ (dp T : List (List Char)) (a chg : List Char),
       s = dp.flatten ++ ((a ++ chg) ++ T.flatten) ∧ (∀ p ∈ dp, p ∈ prefixesL) ∧ (∀ t ∈ T, t ∈ suffixesL) ∧
       (∀ q ∈ (splitStoich a).1 :: (splitStoich a).2, PieceOK q) ∧
-      (∀ x ∈ chg, x = '+' ∨ x = '-' ∨ x.isDigit = true) := by
+      (∀ x ∈ chg, ChgC x) := by
   obtain ⟨pts, tot, h1, h2, h3⟩ := formulaToCompositionL_ok s c h
   obtain ⟨dp, T, hs, hdp, hT, _⟩ := formulaToParts_spec s pts h1
   refine ⟨dp, T, pts.stoich, chgText pts.chg, hs, hdp, hT, stoichToComp_pieces _ _ h2, ?_⟩
@@ -447,11 +509,20 @@ theorem accepted_shape (s : List Char) (c : Comp) (h : formulaToCompositionL s =
   · rw [e]; intro x hx; simp [chgText] at hx
   · rw [e]; exact getCharge_ok_chars chg q hq
 
-theorem sign_digit_plain {x : Char} (h : x = '+' ∨ x = '-' ∨ x.isDigit = true) : Plain x ∧ x.isUpper = false ∧ x.isLower = false := by
-  rcases h with e | e | e
-  · subst e; exact ⟨plain_of_ne (by decide) (by decide) (by decide) (by decide) (by decide) (by decide), by decide, by decide⟩
-  · subst e; exact ⟨plain_of_ne (by decide) (by decide) (by decide) (by decide) (by decide) (by decide), by decide, by decide⟩
+theorem sign_digit_plain {x : Char} (h : ChgC x) : Plain x ∧ x.isUpper = false ∧ x.isLower = false := by
+  have key : ∀ c : Char, (c = '+' ∨ c = '-' ∨ c = '_' ∨ c = ' ' ∨ c = '\t' ∨ c = '\n' ∨ c = '\r' ∨ c = '\x0b' ∨ c = '\x0c') →
+      Plain c ∧ c.isUpper = false ∧ c.isLower = false := by
+    intro c hc
+    rcases hc with e | e | e | e | e | e | e | e | e <;> subst e <;>
+      exact ⟨plain_of_ne (by decide) (by decide) (by decide) (by decide) (by decide) (by decide), by decide, by decide⟩
+  rcases h with e | e | e | e | e
+  · exact key x (Or.inl e)
+  · exact key x (Or.inr (Or.inl e))
   · exact ⟨digit_plain e, notUpper_of_ne_alpha (digit_notAlpha e), isDigit_notLower x e⟩
+  · exact key x (Or.inr (Or.inr (Or.inl e)))
+  · have : x = ' ' ∨ x = '\t' ∨ x = '\n' ∨ x = '\r' ∨ x = '\x0b' ∨ x = '\x0c' := by
+      simpa [isPySpace, or_assoc] using e
+    exact key x (Or.inr (Or.inr (Or.inr this)))
 
 /-- every accepted input has balanced, properly nested brackets -/
 theorem accepted_balanced (s : List Char) (c : Comp) (h : formulaToCompositionL s = .ok c) : balanced s = true := by
